@@ -6,7 +6,7 @@
    refused or failed operation returns the identical state (equality of whole states).
    Linear half: the same for every admissible operation in every reachable linear state. *)
 From Coq Require Import ZArith NArith List Lia.
-From Arsenal Require Import Util Bits Gran Tlsf TlsfStep TlsfProps SizeClass TlsfInv2 TlsfStep2 TlsfProps2 GranInv GranTlsf.
+From Arsenal Require Import Util Bits Gran Tlsf TlsfGeom TlsfInv1 TlsfStep TlsfProps SizeClass TlsfInv2 TlsfStep2 TlsfProps2 GranInv GranTlsf.
 From Arsenal Require Linear LinearInv LinearAlloc LinearFree LinearStep LinearSwap LinearVisit LinearProps.
 Import ListNotations.
 Open Scope Z_scope.
